@@ -43,7 +43,8 @@ def d_line_start(chk, F, f):
     TOKENS (pull_line) and tests the first token of each line (is_single_line_marker); the metadata-only scanner must
     leave its search loop only when the peeked token is MetadataStart and the previously consumed token was a Newline
     token (or nothing was consumed yet) — decided from the token stream alone, never from the input text."""
-    phase2 = [b for b, t in calls_to(f, "Vec::<T, A>::push") if ".block" in full(arg_expr(f, t, 0))]
+    phase2 = [b for b, t in calls_to(f, "Vec::<T, A>::push") + calls_to(f, "Extend<T>>::extend") + calls_to(f, "Vec::<T, A>::extend")
+              if ".block" in full(arg_expr(f, t, 0))]
     if not phase2:
         chk.fail("anchor-missing", "next_metadata_block|push", f"{f.file}:{f.line}", "anchor-missing: next_metadata_block no longer collects tokens into self.block")
         return
@@ -69,6 +70,26 @@ def d_line_start(chk, F, f):
             ok_nl = True
         else:
             why = f"the line-start test reads {full(sub)[:100]}"
+    if not ok_nl:
+        # the same state kept as a bool: `at_line_start` ∈ {true initially, (consumed kind == Newline)}, tested true before the entry
+        from cfgq import bool_edges
+        for bsw, tsw in f.iter_terms("switch"):
+            dp = tsw["discr"].get("move") or tsw["discr"].get("copy")
+            if dp is None or dp["p"] or norm(tsw.get("dty", "")) != "bool":
+                continue
+            te, _fe = bool_edges(f, dp["l"])
+            if not any(f.edge_dominates(e_, tgt) for e_ in te):
+                continue
+            e = resolve(f, tsw["discr"])
+            txt = full(e)
+            ls = leaves(e)
+            has_phi = any(n[0] == "phi" for n in walk(e))
+            init_true = any(n[0] == "const" and isinstance(n[1], dict) and n[1].get("bits") == "1" and norm(n[1].get("ty", "")) == "bool" for n in walk(e))
+            eq_nl = "TokenKind::Newline" in txt and any(l.endswith("lexer::TokenKind as std::cmp::PartialEq>::eq") for l in ls)
+            tok_only = any(l.endswith("Peekable::<I>::peek") for l in ls) and not any("input" in l for l in ls if l.startswith("param:"))
+            if has_phi and init_true and eq_nl and tok_only:
+                ok_nl = True
+                break
     chk.expect(ok_nl, "C14.D-line-start", "next_metadata_block|previous token is Newline", f"{f.file}:{f.line}",
                "the metadata-only scanner does not decide 'start of line' the way the full scanner does (previous TOKEN is a Newline token, initially true): "
                + why + " — an escaped line break or a `>>` inside a comment would be an entry for one scanner and text for the other",
